@@ -282,7 +282,16 @@ func c19Reuse(c *Ctx, idx int) {
 	cells := r.IR(10, 20)
 	box := sdf.Box3{Min: v3.Vec{X: -2, Y: -2, Z: -2}, Max: v3.Vec{X: 2, Y: 2, Z: 2}}
 	mk := func(k int) (sdf.SDF3, string) {
-		switch k % 4 {
+		switch k % 6 {
+		case 4: // a squashed sphere next to an exact one: its field overestimates distances (ray marches towards it may fail)
+			a, _ := sdf.Sphere3D(0.9)
+			b, _ := sdf.Sphere3D(1)
+			f := v3.Vec{X: r.R(0.3, 0.7), Y: 1, Z: r.R(0.6, 0.9)}
+			return sdf.Union3D(sdf.Transform3D(a, sdf.Translate3d(v3.Vec{X: -0.5})), sdf.Transform3D(b, sdf.Translate3d(v3.Vec{X: 0.6}).Mul(sdf.Scale3d(f)))), fmt.Sprintf("sphere + sphere scaled %v", f)
+		case 5: // a stretched box: the field underestimates
+			b, _ := sdf.Box3D(v3.Vec{X: 1, Y: 1, Z: 1}, 0.1)
+			f := v3.Vec{X: r.R(1.2, 2.4), Y: r.R(0.8, 1.5), Z: 1}
+			return sdf.Transform3D(b, sdf.Scale3d(f)), fmt.Sprintf("rounded box scaled %v", f)
 		case 0:
 			s, _ := sdf.Sphere3D(1)
 			return s, "sphere(1)"
